@@ -154,7 +154,7 @@ pub struct FaultPlan {
     /// No random loss between two addresses until the initiator's first non-SYN packet has been
     /// delivered (the accepting side gives up after 5 x 200 ms by design).
     pub protect_handshake: bool,
-    handshake_seen: BTreeMap<(SocketAddr, SocketAddr), bool>,
+    handshake_seen: BTreeMap<(SocketAddr, SocketAddr, u16), bool>,
     /// Apply random loss / duplication / reordering only to datagrams from real sockets.
     pub spare_scripted: bool,
     /// Silent size black hole: datagrams whose IP packet would exceed this are dropped.
@@ -309,16 +309,18 @@ impl FaultPlan {
             let is_syn = ctx.pkt.map(|p| p.ty == wire::ST_SYN).unwrap_or(false);
             let mut in_handshake = false;
             if self.protect_handshake {
+                // keyed per connection: (initiator, acceptor, id carried by the SYN)
+                let cid = ctx.pkt.map(|p| p.conn_id).unwrap_or(0);
                 if is_syn {
-                    self.handshake_seen.entry((ctx.src, ctx.dst)).or_insert(false);
+                    self.handshake_seen.entry((ctx.src, ctx.dst, cid)).or_insert(false);
                     in_handshake = true;
-                } else if let Some(done) = self.handshake_seen.get_mut(&(ctx.src, ctx.dst)) {
+                } else if let Some(done) = self.handshake_seen.get_mut(&(ctx.src, ctx.dst, cid.wrapping_sub(1))) {
                     // initiator -> acceptor, not a SYN: this one still goes through, then it is over
                     if !*done {
                         in_handshake = true;
                         *done = true;
                     }
-                } else if let Some(done) = self.handshake_seen.get(&(ctx.dst, ctx.src)) {
+                } else if let Some(done) = self.handshake_seen.get(&(ctx.dst, ctx.src, cid)) {
                     in_handshake = !*done;
                 }
             }
@@ -958,7 +960,7 @@ where
                     use librqbit_utp::verif::VerifEvent as V;
                     let keep = match ev {
                         V::PollStart { .. } | V::PollEnd { .. } => log2.keep_snapshots,
-                        V::SocketTables { .. } => log2.keep_snapshots,
+                        V::SocketTables { .. } => log2.keep_snapshots || log2.keep_tables.load(std::sync::atomic::Ordering::Relaxed),
                         _ => true,
                     };
                     if keep {
